@@ -30,6 +30,8 @@ Clauses(e) ==
            <<"C13:InsertedMarkupIsWhatHTMLDocumentPutsInHead",
                (FirstPh(Remaining(e.segs)) # 0 /\ LET d == ExtractDeps(e.segs, 1, {}) IN \A i, j \in 1..Len(d) : d[i] = d[j] => i = j)
                   => Agree(e.docEv, e.insEv) = 0>> >>
+    \* a boolean observation of a directed scenario (several documents, a shared `deps=` list), expected TRUE
+    [] e.k = "obs" -> << <<"C13:" \o e.name, e.holds>> >>
     [] e.k = "mode" ->
         << <<"C13:JsonModePlusHTMLTextDocumentEquivalentToDirectRendering", e.depsEqual /\ Agree(e.wantEv, e.gotEv) = 0>> >>
 Judge(e) == [fail |-> FailList(Clauses(e))]
